@@ -366,6 +366,7 @@ func TestCheck(t *testing.T) {
 		"subscriber ids are the stated finite set, not all strings",
 	}
 	ms := append(sysModels(run), membershipModels(run)...)
+	ms = append(ms, loopModels(t, run)...)
 	if *report.FlagReplay != "" {
 		os.Exit(replay(run, ms))
 	}
